@@ -145,6 +145,15 @@ CHECKS["C05"] = dict(
          "turns it into a Reset Query (stable_until); Cache Reset, no-data, expiry and stop force a Reset Query (reset_causes). " + RTR_TIE,
     note=RTR_NOTE, technique="Lean 4 invariant over every iteration of the state-machine model + differential correspondence + trace oracle",
     design="§5 C05")
+CHECKS["C07"] = dict(
+    text="Proof: last_update is exactly the time of the last successful rtr_sync or 0 after a purge - every iteration leaves it alone (records same set or gone), "
+         "clears it together with a purge and a pending Reset Query, or sets it to the completion time of a successful sync (last_update_written; a failed or "
+         "interrupted reload does not touch it); invariant over all histories: records of this socket present => time stamp non-zero, no time stamp => Reset Query "
+         "(invariant, invariant_init); hence at every open() with last_update+expire<now the tables hold nothing of this socket, others untouched, next state RESET "
+         "(expiry_at_open); rtr_stop purges (stop_clears). The clock is monotone (RtrProofs.TimeMono). " + RTR_TIE +
+         " The FSM oracle checks on the real thread: tables at every open(), first query after an expired open(), tables after rtr_stop, other sockets' records.",
+    note=RTR_NOTE, technique="Lean 4 invariant over all histories of the state-machine model (clock monotone) + differential correspondence with fake clock + trace oracle",
+    design="§5 C07")
 CHECKS["C13"] = dict(
     text="Proof: over any run (any reconnects, any script) the version never rises and stays supported (version_monotone); it changes only in the three "
          "legitimate places - first PDU of a connection with a lower supported version, Unsupported-Version error report with a lower version (then FAST_RECONNECT), "
